@@ -126,6 +126,31 @@ def cut_and_graft_variants(key, data, tree0):
     return out
 
 
+def evaluate_then_prune_variants(key, data, tree0, dist):
+    """Both densities are evaluated on a tree, THEN a clone's subtree is removed from the same object (the pruning half of
+    a prune-regraft / subtree move) and the object - and a copy of it - are judged as the smaller forest they now are."""
+    out = []
+    f, o = key
+    if len(f) < 2:
+        return out
+    _, conc = absstate.project(tree0, full=False)
+    name_of = {conc["clade"][m]: m for m in conc["names"]}
+    for v in sorted(f, key=sorted):
+        inside = frozenset(c for c in f if c <= v)
+        if len(inside) == len(f):
+            continue
+        host = tree0.copy()
+        dist.log_p(host)
+        dist.log_p_one(host)
+        host.remove_subtree(host.get_subtree(name_of[v]))
+        rest = frozenset(c - v if v < c else c for c in f if not c <= v)
+        key2 = (rest, o)
+        tag = "".join(map(str, sorted(v)))
+        out.append(("evaluated_then_pruned_%s" % tag, host, key2))
+        out.append(("evaluated_then_pruned_%s_copy" % tag, host.copy(), key2))
+    return out
+
+
 def relabel_then_edit_variants(key, data, tree0):
     """A copy of the tree is relabelled (pre-order numbering, as the run loop does after every iteration) and THEN edited:
     a data point is moved from a clone that holds several to another clone.  The result is another forest; its
@@ -189,6 +214,54 @@ def many_children_part(ck):
         ck.traces_validated += 1
 
 
+def big_clone_part(ck):
+    """Clones holding 130-260 data points (more than a forest the enumerations reach), evaluated one after the other in ONE
+    process with a clone of 151 points before one of 201: Density.tla gives the feature records of exactly these forests
+    (Starts); the data are flat (every likelihood 1), so the exact root vectors are small integers from GridRec.tla."""
+    from phyclone.tree import FSCRPDistribution, TreeJointDistribution
+    from phyclone.data.base import DataPoint
+    G, n = 3, 400
+    shapes = [[(0, 151)], [(0, 201)], [(0, 140), (140, 400)], [(0, 130), (130, 260), (0, 391)]]
+    def rng_set(a, b):
+        return "(%d..%d)" % (a, b - 1)
+    tla_shapes = ", ".join("{%s}" % ", ".join(rng_set(a, b) for a, b in f) for f in shapes)
+    mcd = "---- MODULE MC_DensityBig ----\nEXTENDS Density\nStartsDef == {[f |-> F, o |-> {}] : F \\in {%s}}\n====\n" % tla_shapes
+    r = tlc.run_tlc("c03_density_big", "MC_DensityBig", tlc.cfg_text(constants={"N": n, "OutliersOn": "TRUE", "Dump": "TRUE", "Starts": "<- StartsDef"}, invariants=["FeatConsistent", "Emit"]),
+                    mc_text=mcd, timeout=900)
+    tlc.require_ok(r, "Density (big clones)")
+    ck.add_tlc("Density.tla feature records of %d forests with clones of 130-260 data points" % len(shapes), r)
+    feats = {absstate.canon(x["st"]): x["feat"] for x in r.json_prints}
+    # the data term of flat data depends on the shape only: one representative data point per clone
+    small = {0: [[0]], 1: [[0]], 2: [[0], [1]], 3: [[0], [1], [0, 1, 2]]}
+    tla_small = ", ".join("{%s}" % ", ".join("{%s}" % ", ".join(map(str, c)) for c in f) for f in small.values())
+    tab = np.ones((3, 1, G), dtype=int)
+    mcz = ("---- MODULE MC_BigZ ----\nEXTENDS GridRec, Json\nLDef == %s\nShapes == {%s}\n"
+           "ASSUME \\A F \\in Shapes : PrintT(ToJson([f |-> F, Z |-> ZRecT(F, LDef, 1, %d)]))\n"
+           "VARIABLE x\nInit == x = 0\nNext == UNCHANGED x\n====\n") % (gridoracle.tla_tab(tab), tla_small, G)
+    rz = tlc.run_tlc("c03_big_z", "MC_BigZ", tlc.cfg_text(), mc_text=mcz, workers=1, timeout=900)
+    tlc.require_ok(rz, "GridRec (big clones, flat data)")
+    ck.add_tlc("GridRec.tla exact root vectors of the same shapes on flat data", rz)
+    zs = {absstate.canon({"f": x["f"], "o": []}): x["Z"] for x in rz.json_prints}
+    data = [DataPoint(i, np.zeros((1, G))) for i in range(n)]
+    for si, f in enumerate(shapes):
+        key = absstate.canon({"f": [list(range(a, b)) for a, b in f], "o": []})
+        feat = feats[key]
+        z = zs[absstate.canon({"f": small[si], "o": []})]
+        tree = absstate.build(key, data)
+        for alpha in (0.3, 2.5):
+            dist = TreeJointDistribution(FSCRPDistribution(alpha))
+            both = dist.compute_both_log_p_and_log_p_one(tree)
+            for nm, form, got in (("log_p", "marg", float(dist.log_p(tree))), ("log_p_one", "one", float(dist.log_p_one(tree))),
+                                  ("fused log_p", "marg", float(both[0])), ("fused log_p_one", "one", float(both[1]))):
+                want = expected(feat, alpha, 0.0, {}, [z], {}, G, 1, form)
+                ck.evaluations += 1
+                if not math.isfinite(got) or abs(got - want) > 1e-9 * (1 + abs(want)):
+                    ck.violation("C03|big_clones|%s" % nm.replace(" ", "_"), "%s = %.12g, FS-CRP model value %.12g for the forest with clones of sizes %s (alpha %s), evaluated after the forests %s" % (
+                        nm, got, want, sorted(s_ for _, s_ in feat["sizes"]), alpha, [[b - a for a, b in g] for g in shapes[:si]]), {"shape": f, "alpha": alpha})
+        ck.nontrivial("big_clones:%d" % si)
+        ck.traces_validated += 1
+
+
 def light_pass(ck, n):
     """One more data point with a single setting (alpha 2.5, outlier prior 0.2, unit cluster sizes), two constructions per forest:
     covers shapes the full pass does not reach (e.g. two top-level clones beside a clone with two children)."""
@@ -216,6 +289,7 @@ def light_pass(ck, n):
         variants = [(a, b, key) for a, b in c02.build_variants(key, data)[:2]]
         variants += cut_and_graft_variants(key, data, variants[0][1])
         variants += [v for v in relabel_then_edit_variants(key, data, variants[0][1]) if v[2] in feats]
+        variants += [v for v in evaluate_then_prune_variants(key, data, variants[0][1], dist) if v[2] in feats and (not v[2][0] or v[2] in oracle)]
         for vname, tree, vkey in variants:
             exp_p = expected(feats[vkey], 2.5, 0.2, sizes_of, oracle[vkey]["Z"] if vkey[0] else None, outl_marg, G, D, "marg")
             exp_1 = expected(feats[vkey], 2.5, 0.2, sizes_of, oracle[vkey]["Z"] if vkey[0] else None, outl_marg, G, D, "one")
@@ -227,10 +301,11 @@ def light_pass(ck, n):
                 ck.violation("C03|light_pass|construction", "the tree built %s for %s is inconsistent: %s" % (vname, absstate.key_str(key), ex), {"state": absstate.to_json(key), "variant": vname})
                 continue
             both = dist.compute_both_log_p_and_log_p_one(tree)
-            th = TreeHolder(tree, dist, None)
+            # (a particle holder is never built from a tree a subtree was just cut out of: its "last node added to" may be gone)
+            th = TreeHolder(tree, dist, None) if not vname.startswith("evaluated_then_pruned") else None
             ck.evaluations += 3
             for nm, g, e in (("log_p", float(dist.log_p(tree)), exp_p), ("log_p_one", float(dist.log_p_one(tree)), exp_1), ("fused log_p", float(both[0]), exp_p),
-                             ("fused log_p_one", float(both[1]), exp_1), ("particle log_p_one", float(th.log_p_one), exp_1)):
+                             ("fused log_p_one", float(both[1]), exp_1)) + ((("particle log_p_one", float(th.log_p_one), exp_1),) if th is not None else ()):
                 if not math.isfinite(g) or abs(g - e) > 1e-9 * (1 + abs(e)):
                     ck.violation("C03|%s|light_pass" % nm.replace(" ", "_"), "%s = %.12g, FS-CRP model value %.12g for %s built %s (alpha 2.5, p_out 0.2)" % (
                         nm, g, e, absstate.key_str(key), vname), {"state": absstate.to_json(key), "alpha": 2.5, "p_out": 0.2, "variant": vname, "tables": tab.tolist()})
@@ -249,6 +324,7 @@ def run(corrupt=None):
     G, D = 4, 2
     light_pass(ck, 5)
     many_children_part(ck)
+    big_clone_part(ck)
     cfg = tlc.cfg_text(constants={"N": n, "OutliersOn": "TRUE", "Dump": "TRUE", "Starts": "{}"}, invariants=["FeatConsistent", "Emit"])
     r = tlc.run_tlc("c03_density", "Density", cfg, timeout=1500)
     tlc.require_ok(r, "Density")
